@@ -234,7 +234,7 @@ CTKinds == IF Group = "metaquick" THEN {"ku", "san", "custom"} ELSE {"ku", "bc",
 MaxExt == IF Group = "metaquick" THEN 3 ELSE 4
 ExtLists == { l \in UNION { [1..k -> CTKinds] : k \in 0..MaxExt } :
                 \A i, j \in DOMAIN l : i # j => l[i] # l[j] }
-Inserted(l) == { InsAt(l, p, x) : p \in 1..(Len(l) + 1), x \in {"poison", "sct", "sct0"} }
+Inserted(l) == { InsAt(l, p, x) : p \in 1..(Len(l) + 1), x \in {"poison", "sct", "sct0", "poisonnc", "sctc"} }
                \cup { InsAt(InsAt(l, p, "poison"), q, "sct") : p \in 1..(Len(l) + 1), q \in 1..(Len(l) + 2) }
 CTCasesOK == UNION { { [base |-> l, ct |-> c, sign |-> s] : c \in Inserted(l), s \in {"self", "selfissued-bad", "issued"} } :
                       l \in ExtLists }
